@@ -195,6 +195,9 @@ enum Op {
     Unsub(usize),
     EmitOk,
     EmitErr,
+    /// a completing process runs but its messages are not dispatched yet; then the operation on a
+    /// registered channel (close, unsub or re-register); then the held messages are dispatched
+    HeldThen(Box<Op>),
 }
 
 /// pattern variants of part (b): (type, state)
@@ -228,6 +231,9 @@ fn histories(depth: usize, first: usize, out: &mut ItemOut) {
             v.push(Op::Close(c));
             if reg[c].is_some() {
                 v.push(Op::Unsub(c));
+                v.push(Op::HeldThen(Box::new(Op::Close(c))));
+                v.push(Op::HeldThen(Box::new(Op::Unsub(c))));
+                v.push(Op::HeldThen(Box::new(Op::Open(c, 0, 0))));
             }
         }
         v
@@ -242,7 +248,11 @@ fn histories(depth: usize, first: usize, out: &mut ItemOut) {
         let mut sess = Session::new(&Cfg::default());
         sess.deploy("id: ok\nsteps:\n  - id: s1\n    acts:\n      - uses: acts.core.msg\n        key: k1\n");
         sess.deploy(CORPUS_WF2);
-        let logs: Arc<Mutex<Vec<(usize, &'static str, String)>>> = Arc::new(Mutex::new(vec![]));
+        // (channel, handler kind, message id, registration generation of the handler)
+        let logs: Arc<Mutex<Vec<(usize, &'static str, String, usize)>>> = Arc::new(Mutex::new(vec![]));
+        let mut generation = 0usize;
+        // per channel: the generation registered before a held operation re-registered it
+        let mut stale_gen: [Option<usize>; 2] = [None, None];
         let mut chans: Vec<Option<Arc<acts::Channel>>> = vec![None, None];
         let mut reg: Reg = [None, None];
         // channel -> handler kind -> pattern variant registered for it
@@ -252,6 +262,19 @@ fn histories(depth: usize, first: usize, out: &mut ItemOut) {
             let last = k + 1 == path.len();
             let before_log = logs.lock().unwrap().len();
             let before_all = sess.delivered.lock().unwrap().len();
+            // a held operation: the process runs first, the inner operation follows, the dispatch comes last
+            let (op, held) = match op {
+                Op::HeldThen(inner) => {
+                    n_proc += 1;
+                    let _ = sess.start("ok", &crate::checks::common::vars_of(&json!({"pid": format!("p{n_proc}")})));
+                    sess.drain_holding_dispatch();
+                    if let Op::Open(c, _, _) = inner.as_ref() {
+                        stale_gen[*c] = Some(generation);
+                    }
+                    (inner.as_ref(), true)
+                }
+                o => (o, false),
+            };
             match op {
                 Op::Open(c, v, kinds) => {
                     let ch = sess.engine.channel_with_options(&ChannelOptions {
@@ -267,10 +290,12 @@ fn histories(depth: usize, first: usize, out: &mut ItemOut) {
                         1 => &["start", "complete", "error"],
                         _ => &["message"],
                     };
+                    generation += 1;
+                    let g = generation;
                     for kind in which.iter().copied() {
                         let l = logs.clone();
                         let c2 = *c;
-                        let f = move |e: &acts::Event<Message>| l.lock().unwrap().push((c2, kind, e.id.clone()));
+                        let f = move |e: &acts::Event<Message>| l.lock().unwrap().push((c2, kind, e.id.clone(), g));
                         match kind {
                             "message" => ch.on_message(f),
                             "start" => ch.on_start(f),
@@ -305,13 +330,35 @@ fn histories(depth: usize, first: usize, out: &mut ItemOut) {
                     let _ = sess.start(mid, &crate::checks::common::vars_of(&json!({"pid": format!("p{n_proc}")})));
                     sess.drain();
                 }
+                Op::HeldThen(_) => unreachable!(),
+            }
+            if held {
+                sess.release_dispatch();
+                sess.drain();
             }
             if last {
                 edges += 1;
                 // what the default channel saw during this operation is what was emitted
                 let emitted: Vec<(&'static str, Message)> = sess.delivered.lock().unwrap()[before_all..].iter().map(|d| (d.channel, d.msg.clone())).collect();
-                let got: Vec<(usize, &'static str, String)> = logs.lock().unwrap()[before_log..].to_vec();
+                let got4: Vec<(usize, &'static str, String, usize)> = logs.lock().unwrap()[before_log..].to_vec();
+                let got: Vec<(usize, &'static str, String)> = got4.iter().map(|(a, b, c, _)| (*a, *b, c.clone())).collect();
                 for c in 0..2 {
+                    if held {
+                        // a handler that was replaced while the messages were held is not called any more
+                        if let (Op::Open(oc, _, _), Some(old)) = (op, stale_gen[c]) {
+                            if *oc == c && got4.iter().any(|(cc, _, _, g)| *cc == c && *g <= old) {
+                                let prev_ops: Vec<String> = path.iter().map(|o| format!("{o:?}")).collect();
+                                viols.entry("history/old-handler-after-reregister".into()).or_insert((
+                                    format!("after {prev_ops:?}: the handler of chan{c} that was replaced before the dispatch was still called"),
+                                    path.clone(),
+                                ));
+                            }
+                            if *oc == c {
+                                // whether the new handler sees a message generated before it existed is not specified
+                                continue;
+                            }
+                        }
+                    }
                     let mut want: Vec<(&'static str, String)> = vec![];
                     for (kind, m) in &emitted {
                         if let Some(v) = per_kind[c].get(kind) {
@@ -387,8 +434,8 @@ impl Check for C18 {
         CheckInfo {
             id: "C18",
             level: "model_checking",
-            rule: "matrix: all 7^5 = 16807 channels built from seven patterns per field (*, literal hit, literal miss, prefix*, ?-pattern, {a,b}, [ab]x) registered together on a real engine, the messages of real runs (workflow/step/act, created/completed/skipped/error, keys, uses, node and model tags) dispatched to all of them, each delivery compared with a hand-written truth table; histories: every sequence up to the depth over {open(c, pattern), re-register(c, other pattern), close(c), unsub(c), emit a completing process, emit a failing process} for two channels (one registering all four handler kinds, events only, or messages only), deliveries per channel compared with the registered pattern at dispatch".into(),
-            assumptions: vec!["dispatch runs right after generation (the open/close race with a spawned dispatch is not judged: either outcome is allowed by the text)".into()],
+            rule: "matrix: all 7^5 = 16807 channels built from seven patterns per field (*, literal hit, literal miss, prefix*, ?-pattern, {a,b}, [ab]x) registered together on a real engine, the messages of real runs (workflow/step/act, created/completed/skipped/error, keys, uses, node and model tags) dispatched to all of them, each delivery compared with a hand-written truth table; histories: every sequence up to the depth over {open(c, pattern), re-register(c, other pattern), close(c), unsub(c), emit a completing process, emit a failing process, and held operations: a process runs, its messages are held, a registered channel is closed / unsubscribed / re-registered, then the messages are dispatched} for two channels (one registering all four handler kinds, events only, or messages only), deliveries per channel compared with the registered pattern at dispatch".into(),
+            assumptions: vec!["dispatch runs right after generation, except in the held operations, where a close / unsub / re-registration lands between the generation of the messages and their dispatch: a closed channel must then receive nothing and a replaced handler must not be called; whether a handler registered after the generation sees those messages is not specified and not judged".into()],
             budget_s: tier.pick(50, 600),
             exhaustive_when_uncapped: true,
             bounds: json!({"patterns_per_field": 7, "history_depth": tier.pick(4, 5), "channels_in_histories": 2}),
